@@ -201,7 +201,8 @@ def vmap_like_per_index(pa, sa, xa, oa, use_state_axes, x0, x1, x2, x3, x4, x5, 
 
 
 @with_real_dicts
-def scan_like_loop(pa, xa, oa, reverse, carry_stat, x0, x1, x2, w0, w1, c0, k0, s0):
+def scan_like_loop(pa, xa, oa, reverse, carry_stat, x0, x1, x2, w0, w1, c0, k0, s0,
+                   varcarry=False):
   """nnx.scan == the Python loop: Carry threaded, the Param group sliced per step
   along its axis, the BatchStat group carried (each step sees the previous update)
   or sliced, outputs stacked in index order for either direction; the caller's own
@@ -219,16 +220,26 @@ def scan_like_loop(pa, xa, oa, reverse, carry_stat, x0, x1, x2, w0, w1, c0, k0, 
   def f(carry, m_, x_):
     xs = x_.at((0,))
     m_.c.value = m_.c.value * 2 + xs               # order sensitive when carried
-    new = carry * 3 + xs + m_.w.value.at((0,))
-    return new, Arr([xs + m_.c.value.at((0,)) + m_.sub.k.value.at((0,)),
-                     new.at((0,))], (2,))
+    old = carry.value if varcarry else carry
+    new = old * 3 + xs + m_.w.value.at((0,))
+    if varcarry:
+      carry.value = new          # the carry is a bare Variable, updated in place
+    return (carry if varcarry else new), Arr(
+        [xs + m_.c.value.at((0,)) + m_.sub.k.value.at((0,)), new.at((0,))], (2,))
   axes = nnx.StateAxes({nnx.Param: p_axis,
                         nnx.BatchStat: nnx.Carry if carry_stat else 0})
   ids = (id(m), id(m.w), id(m.c), id(m.sub))
+  carry0 = nnx.Variable(Arr([s0], (1,))) if varcarry else Arr([s0], (1,))
   with VmapEnv():
     cf, ys = nnx.scan(f, in_axes=(nnx.Carry, axes, x_axis),
                       out_axes=(nnx.Carry, oa), reverse=bool(reverse))(
-                          Arr([s0], (1,)), m, x)
+                          carry0, m, x)
+  if varcarry:
+    # like the Python loop: the caller's own Variable holds the final carry and is
+    # what comes back
+    if cf is not carry0:
+      return False
+    cf = carry0.value
   carry, c, rys = s0, c0, [None] * n
   newc = list(cs)
   for i in (range(n - 1, -1, -1) if reverse else range(n)):
@@ -508,7 +519,7 @@ def obligations(tier):
                   'on an int-array stand-in',)),
       Ob('scan_like_loop', scan_like_loop,
          dict(pa=I(0, 1), xa=I(0, 1), oa=I(0, 1), reverse=B(), carry_stat=B(), x0=v3,
-              x1=v3, x2=v3, w0=v3, w1=v3, c0=v3, k0=v3, s0=v3),
+              x1=v3, x2=v3, w0=v3, w1=v3, c0=v3, k0=v3, s0=v3, varcarry=B()),
          split=('pa', 'xa', 'reverse', 'carry_stat'), timeout=600, funcs=qualnames(
              IT.scan, IT.ScanFn.__call__, IT._scan_split_in, IT._scan_split_out,
              IT._scan_merge_in, IT._scan_merge_out), per_path_timeout=60.0,
